@@ -1,3 +1,22 @@
 import Dashu.Props.C03
 open Dashu.Props.C03
-#print axioms placeholder
+#print axioms mul_operator_contract
+#print axioms mul_contract_partial
+#print axioms mul_contract_fixed
+#print axioms mul_preshrink_counterexample
+#print axioms sqr_contract_partial
+#print axioms sqr_contract_fixed
+#print axioms cubic_contract_partial
+#print axioms cubic_contract_fixed
+#print axioms add_sub_contract_partial
+#print axioms add_sub_far_contract
+#print axioms add_sub_contract
+#print axioms round_sum_contract
+#print axioms round_sum_nolow_contract
+#print axioms div_contract
+#print axioms ctx_div_contract_partial
+#print axioms inv_contract
+#print axioms div_panics
+#print axioms sqrt_contract
+#print axioms sqrt_panics
+#print axioms unlimited_exact
